@@ -2325,6 +2325,10 @@ def chain_child(scope):
     # of tuples
     nxt_in_chain = scope[LAST_CHILD_SCOPE]
     nxt_in_chain.maps[0][NO_PYFRAME] = True
+    # a mode set by the previous step (Match, Fill, Group, Auto) applies to
+    # that step only: the next step runs in the mode of the chaining spec
+    nxt_in_chain.maps[0][MODE] = scope.maps[0][MODE]
+    nxt_in_chain.maps[0][MIN_MODE] = scope.maps[0][MIN_MODE]
     # previous failed branches are forgiven as the
     # scope is re-wired into a new stack
     del nxt_in_chain.maps[0][CHILD_ERRORS][:]
